@@ -194,28 +194,34 @@ class C01(Prop):
         return None
 
     def regime(self, case, obs):
+        """every regime the case belongs to (a case usually exercises several)"""
         g, n, k = case["g"], case["n"], case["k"]
         ge = min(n, g)
+        tags = []
         if k >= ge:
-            return "skipback>=g"
+            return ["skipback>=g"]
         st = ge - k
-        if n % st < k:
-            return "lastread<skipback"
-        if 2 * k > ge:
-            return "g/2<skipback<g"
-        if case["s"] + n < case["N"] and n % st:
-            return "ends-before-eof"
-        if len(case["splits"]) > 1:
-            return "multi-file"
-        if g >= n:
-            return "gulp>=n"
-        if case["s"] > 0:
-            return "start>0"
-        if n % g == 0 and k == 0:
-            return "gulp|n"
         if k == 0:
-            return "skipback=0" if n % st == 0 else "partial-last"
-        return "skipback<=g/2"
+            tags.append("skipback=0")
+        elif 2 * k > ge:
+            tags.append("g/2<skipback<g")
+        else:
+            tags.append("skipback<=g/2")
+        if k and n % st < k:
+            tags.append("lastread<skipback")
+        if case["s"] + n < case["N"] and n % st:
+            tags.append("ends-before-eof")
+        if len(case["splits"]) > 1:
+            tags.append("multi-file")
+        if g >= n:
+            tags.append("gulp>=n")
+        if case["s"] > 0:
+            tags.append("start>0")
+        if g < n and n % st == 0:
+            tags.append("gulp|n")
+        if g < n and n % st:
+            tags.append("partial-last")
+        return tags
 
     def nontrivial(self, case, obs):
         return len(obs["blocks"]) >= 2 or obs["err"] is not None
